@@ -57,6 +57,7 @@ class W:
 
 class A(Adapter):
     name = "LevelBasedForaging"
+    run_scale = 1
     mask_mode = "per_agent"
     noop = 0
     has_reaction = True
